@@ -95,7 +95,7 @@ theorem afterPull_cases (tid : Tid) (s : Shared) (t : PThread) (r : PullRes) (hs
     (h : (afterPull F tid s t r).1.exc = none) :
     (afterPull F tid s t r).1 = s ∧
     ((r = .stop ∧ (afterPull F tid s t r).2 =
-        { t with q := { t.q with pc := .tAcq, rets := [retOf t], reraise := none } }) ∨
+        { t with q := { t.q with pc := .tAcq, rets := retsT t, reraise := none } }) ∨
      (∃ v, r = .item (.val v) ∧ F v = some [] ∧ (afterPull F tid s t r).2 =
         { t with pulled := t.pulled ++ [v], ipc := if t.useLock then .acq else .next }) ∨
      (∃ v y ys, r = .item (.val v) ∧ F v = some (y :: ys) ∧ (afterPull F tid s t r).2 =
